@@ -3,6 +3,7 @@
 // enumerated (stateless DFS with state-hash pruning) and every complete execution is compared with the single-threaded reference.
 // Builds: plain (functional oracle), asan (no invalid access under any schedule), tsan (no data race report under any schedule).
 #include "solver_world.hpp"
+#include "vomp/selftest.hpp"
 #include "cell_divider.hpp"
 #include "mesh_writer.hpp"
 #include "vomp/explorer.hpp"
@@ -108,6 +109,8 @@ static void explore(Result& R) {
     for (int T : {2, 3}) { if (!th && T == 3) continue; subs.push_back({"run_iteration x2, three non-interacting cells, T=" + std::to_string(T), T, th ? 2 : 1, [] { return scenario_iterations(2); }, nullptr, hash_world, "@serial"}); }
     if (th) subs.push_back({"run_iteration x2, three non-interacting cells, T=4", 4, 1, [] { return scenario_iterations(2); }, nullptr, hash_world, "@serial"});
 
+    // the runtime and the explorer first show that they find what they are there to find
+    if (R.args.shard == 0 && R.args.variant.find("tsan") == std::string::npos) { /* the kernels race on purpose: not under the race detector */ vomp_selftest::Report st = vomp_selftest::run(); R["selftest_schedules"] = st.schedules; R.strings["explorer_selftest"] = st.detail; if (!st.error.empty()) { R.internal_error = st.error; return; } }
     long total_switch = 0, total_exec = 0, total_points = 0, total_pruned = 0; long unit = 0;
     for (Sub& s : subs) { if (!R.args.mine(unit++)) continue; if (R.out_of_time(0.9)) { R.cap("deadline before sub-check " + s.name); break; }
         progress("sub=" + s.name + "\n");
